@@ -14,69 +14,93 @@
 
 namespace Grenad.R
 
-abbrev M := Except String
+inductive IoErr where
+  | unexpectedEof
+  | invalidSeek
+  deriving Repr, DecidableEq
+
+/-- `Err(..)` values of the crate (`Error`, `io::Error`). -/
+inductive RErr where
+  | io (e : IoErr)
+  | invalidFormatVersion
+  | invalidCompressionType
+  deriving Repr, DecidableEq
+
+/-- How a translated function can fail: a Rust panic, or an `Err` returned through `?` / `return Err`. -/
+inductive Fail where
+  | panic (msg : String)
+  | err (e : RErr)
+  deriving Repr, DecidableEq
+
+abbrev M := Except Fail
+
+instance : MonadExcept Fail M := inferInstanceAs (MonadExcept Fail (Except Fail))
 
 @[inline] def add (w a b : Nat) : M Nat :=
-  if a + b < 2 ^ w then pure (a + b) else throw "attempt to add with overflow"
+  if a + b < 2 ^ w then pure (a + b) else throw (Fail.panic "attempt to add with overflow")
 
 @[inline] def sub (_w a b : Nat) : M Nat :=
-  if b ≤ a then pure (a - b) else throw "attempt to subtract with overflow"
+  if b ≤ a then pure (a - b) else throw (Fail.panic "attempt to subtract with overflow")
 
 @[inline] def mul (w a b : Nat) : M Nat :=
-  if a * b < 2 ^ w then pure (a * b) else throw "attempt to multiply with overflow"
+  if a * b < 2 ^ w then pure (a * b) else throw (Fail.panic "attempt to multiply with overflow")
 
 /-- `a << k` at width `w` (overflow-checked builds panic when `k ≥ w`; bits shifted out are lost). -/
 @[inline] def shl (w a k : Nat) : M Nat :=
-  if k < w then pure ((a <<< k) % 2 ^ w) else throw "attempt to shift left with overflow"
+  if k < w then pure ((a <<< k) % 2 ^ w) else throw (Fail.panic "attempt to shift left with overflow")
 
 @[inline] def shr (w a k : Nat) : M Nat :=
-  if k < w then pure (a >>> k) else throw "attempt to shift right with overflow"
+  if k < w then pure (a >>> k) else throw (Fail.panic "attempt to shift right with overflow")
 
 /-- `a as uW` for an unsigned source. -/
 @[inline] def castU (w a : Nat) : Nat := a % 2 ^ w
+
+/-- `a as iW` for an unsigned source (two's complement wrap). -/
+@[inline] def castI (w a : Nat) : Int :=
+  if a % 2 ^ w < 2 ^ (w - 1) then ((a % 2 ^ w : Nat) : Int) else ((a % 2 ^ w : Nat) : Int) - ((2 ^ w : Nat) : Int)
 
 /-- `u8::checked_add`-style: `none` on overflow. -/
 @[inline] def checkedAdd (w a b : Nat) : Option Nat := if a + b < 2 ^ w then some (a + b) else none
 
 /-- `a.div_ceil(b)` -/
 @[inline] def divCeil (a b : Nat) : M Nat :=
-  if b = 0 then throw "attempt to divide by zero" else pure ((a + b - 1) / b)
+  if b = 0 then throw (Fail.panic "attempt to divide by zero") else pure ((a + b - 1) / b)
 
 @[inline] def div (a b : Nat) : M Nat :=
-  if b = 0 then throw "attempt to divide by zero" else pure (a / b)
+  if b = 0 then throw (Fail.panic "attempt to divide by zero") else pure (a / b)
 
 @[inline] def rem (a b : Nat) : M Nat :=
-  if b = 0 then throw "attempt to calculate the remainder with a divisor of zero" else pure (a % b)
+  if b = 0 then throw (Fail.panic "attempt to calculate the remainder with a divisor of zero") else pure (a % b)
 
 /-- `l[i]` -/
 @[inline] def idx {α} (l : List α) (i : Nat) : M α :=
   match l[i]? with
   | some x => pure x
-  | none => throw "index out of bounds"
+  | none => throw (Fail.panic "index out of bounds")
 
 /-- `l[i] = x` -/
 @[inline] def setIdx {α} (l : List α) (i : Nat) (x : α) : M (List α) :=
-  if i < l.length then pure (l.set i x) else throw "index out of bounds"
+  if i < l.length then pure (l.set i x) else throw (Fail.panic "index out of bounds")
 
 /-- `&l[..n]` -/
 @[inline] def sliceTo {α} (l : List α) (n : Nat) : M (List α) :=
-  if n ≤ l.length then pure (l.take n) else throw "range end index out of range"
+  if n ≤ l.length then pure (l.take n) else throw (Fail.panic "range end index out of range")
 
 /-- `&l[a..]` -/
 @[inline] def sliceFrom {α} (l : List α) (a : Nat) : M (List α) :=
-  if a ≤ l.length then pure (l.drop a) else throw "range start index out of range"
+  if a ≤ l.length then pure (l.drop a) else throw (Fail.panic "range start index out of range")
 
 /-- `&l[a..b]` -/
 @[inline] def sliceRange {α} (l : List α) (a b : Nat) : M (List α) :=
-  if a ≤ b then (if b ≤ l.length then pure ((l.take b).drop a) else throw "range end index out of range")
-  else throw "slice index starts after its end"
+  if a ≤ b then (if b ≤ l.length then pure ((l.take b).drop a) else throw (Fail.panic "range end index out of range"))
+  else throw (Fail.panic "slice index starts after its end")
 
-@[inline] def assert (c : Bool) (msg : String) : M Unit := if c then pure () else throw msg
+@[inline] def assert (c : Bool) (msg : String) : M Unit := if c then pure () else throw (Fail.panic msg)
 
 @[inline] def unwrap {α} (o : Option α) : M α :=
   match o with
   | some x => pure x
-  | none => throw "called `Option::unwrap()` on a `None` value"
+  | none => throw (Fail.panic "called `Option::unwrap()` on a `None` value")
 
 /-- `x.to_be_bytes()` / `to_le_bytes()` on `n` bytes. -/
 def leBytes : Nat → Nat → List UInt8
@@ -91,7 +115,7 @@ def beValue (bs : List UInt8) : Nat := leValue bs.reverse
 
 /-- `usize::try_from(x).unwrap()` / `x.try_into().unwrap()` into width `w`. -/
 @[inline] def tryInto (w a : Nat) : M Nat :=
-  if a < 2 ^ w then pure a else throw "called `Result::unwrap()` on an `Err` value: TryFromIntError"
+  if a < 2 ^ w then pure a else throw (Fail.panic "called `Result::unwrap()` on an `Err` value: TryFromIntError")
 
 /-! ### A seekable byte source (`io::Cursor<&[u8]>`-like), for `Metadata::read_from`.
     `read_exact` semantics: a short source is `UnexpectedEof`; a failed call leaves the position
@@ -101,11 +125,6 @@ structure Src where
   bytes : List UInt8
   pos : Nat
   deriving Repr
-
-inductive IoErr where
-  | unexpectedEof
-  | invalidSeek
-  deriving Repr, DecidableEq
 
 /-- `reader.seek(SeekFrom::End(off))` — negative resulting positions are an `InvalidInput` error. -/
 @[inline] def Src.seekEnd (s : Src) (off : Int) : Except IoErr Nat × Src :=
@@ -129,5 +148,40 @@ inductive IoErr where
 
 /-- A byte sink that accepts everything (`Vec<u8>`): `write_uN::<Endian>` appends. -/
 abbrev Sink := List UInt8
+
+@[inline] def liftIo {α} (r : Except IoErr α) : M α :=
+  match r with
+  | .ok v => pure v
+  | .error e => throw (Fail.err (RErr.io e))
+
+/-- `opt.ok_or(e)?` -/
+@[inline] def okOr {α} (o : Option α) (e : RErr) : M α :=
+  match o with
+  | some v => pure v
+  | none => throw (Fail.err e)
+
+@[inline] def addI (w : Nat) (a b : Int) : M Int :=
+  if -(2 ^ (w - 1) : Int) ≤ a + b ∧ a + b < 2 ^ (w - 1) then pure (a + b) else throw (Fail.panic "attempt to add with overflow")
+
+@[inline] def subI (w : Nat) (a b : Int) : M Int :=
+  if -(2 ^ (w - 1) : Int) ≤ a - b ∧ a - b < 2 ^ (w - 1) then pure (a - b) else throw (Fail.panic "attempt to subtract with overflow")
+
+/-- `std::ops::Bound` -/
+inductive Bound (α : Type) where
+  | included (x : α)
+  | excluded (x : α)
+  | unbounded
+  deriving Repr
+
+/-- `<[u8] as Ord>::cmp`: lexicographic. -/
+def cmpBytes (a b : List UInt8) : Ordering :=
+  if a < b then .lt else if a = b then .eq else .gt
+
+/-- `<Option<&[u8]> as Ord>::cmp`: `None` first. -/
+def cmpOptBytes : Option (List UInt8) → Option (List UInt8) → Ordering
+  | none, none => .eq
+  | none, some _ => .lt
+  | some _, none => .gt
+  | some a, some b => cmpBytes a b
 
 end Grenad.R
